@@ -12,22 +12,22 @@ PROPS = ("C01", "C07", "C08", "C10", "C11", "C19", "C20")
 
 # property -> (driver modes with (scenarios, events) per tier, MC focus runs per tier)
 PLAN = {
-    "C07": dict(modes={"quick": [("match", 48, 40)], "thorough": [("match", 120, 60)]},
+    "C07": dict(modes={"quick": [("match", 48, 40)], "thorough": [("match", 400, 60), ("wrap", 1, 66000)]},
                 mc={"quick": [("match", 6, {})], "thorough": [("match", 8, {})]}),
-    "C08": dict(modes={"quick": [("dispatch", 64, 40), ("net", 8, 40)], "thorough": [("dispatch", 200, 60), ("net", 48, 60)]},
+    "C08": dict(modes={"quick": [("dispatch", 64, 40), ("net", 8, 40)], "thorough": [("dispatch", 800, 60), ("net", 64, 60)]},
                 mc={"quick": [("dispatch", 4, {})], "thorough": [("dispatch", 5, {}), ("dispatch", 4, {"Passive": "TRUE"})]}),
     "C10": dict(modes={"quick": [("tokens", 48, 40), ("dispatch", 16, 40), ("net", 8, 40)],
-                       "thorough": [("tokens", 200, 60), ("dispatch", 60, 60), ("net", 48, 60)]},
+                       "thorough": [("tokens", 600, 60), ("dispatch", 200, 60), ("net", 64, 60)]},
                 mc={"quick": [("tokens", 4, {})], "thorough": [("tokens", 5, {})]}),
-    "C11": dict(modes={"quick": [("peers", 48, 50), ("net", 8, 40)], "thorough": [("peers", 200, 80), ("net", 48, 60)]},
+    "C11": dict(modes={"quick": [("peers", 48, 50), ("net", 8, 40)], "thorough": [("peers", 600, 80), ("net", 64, 60)]},
                 mc={"quick": [("peers", 4, {})], "thorough": [("peers", 5, {})]}),
-    "C19": dict(modes={"quick": [("block", 48, 40)], "thorough": [("block", 200, 60)]},
+    "C19": dict(modes={"quick": [("block", 48, 40)], "thorough": [("block", 600, 60)]},
                 mc={"quick": [("block", 4, {}), ("block", 4, {"Passive": "TRUE"})],
                     "thorough": [("block", 5, {}), ("block", 5, {"Passive": "TRUE"})]}),
-    "C20": dict(modes={"quick": [("budget", 32, 40)], "thorough": [("budget", 200, 60)]},
+    "C20": dict(modes={"quick": [("budget", 32, 40)], "thorough": [("budget", 400, 60)]},
                 mc={"quick": [("budget", 4, {"Burst": "1"}), ("budget", 4, {"Burst": "0"})],
                     "thorough": [("budget", 5, {"Burst": "2"}), ("budget", 5, {"Burst": "1"}), ("budget", 5, {"Burst": "0"})]}),
-    "C01": dict(modes={"quick": [("hostile", 48, 500)], "thorough": [("hostile", 120, 2000)]},
+    "C01": dict(modes={"quick": [("hostile", 48, 500)], "thorough": [("hostile", 400, 2000)]},
                 mc={"quick": [("dispatch", 4, {})], "thorough": [("dispatch", 5, {})]}),
 }
 
@@ -78,6 +78,8 @@ def run(prop, tier, seed, replay=None):
     else:
         for mode, n, events in PLAN[prop]["modes"][tier]:
             split = 8 if tier == "quick" else 16
+            if mode == "wrap":
+                split = 1
             for i in range(split):
                 jobs.append((mode, seed * 1000 + i, max(1, n // split), events, None))
 
